@@ -44,6 +44,13 @@ FlagScripts == { LET r == Rec(lin, 0, 2, 3, 0, 0, 0, 9)
                  Script("flags-" \o ToString(lin), << NewReader("s", r, TRUE) >>
                           \o Flatten([j \in 1..8 |-> << ReadCall("s", r, 100, seqc[j][1], seqc[j][2], seqc[j][3]), ReadReact(r, j, 100, seqc[j][1], seqc[j][2], seqc[j][3]) >>]), "flags")
                  : lin \in {0, 8} }
+\* a flagged response (reading unavailable / scanning disabled) carrying another raw byte, then a good response with that
+\* same byte: the value is that of the byte just read
+FlagHistory == { LET r == Rec(lin, 1, 3, 7, 0, 0, 0, 12)
+                     st == << <<200, TRUE, FALSE>>, <<9, TRUE, TRUE>>, <<9, TRUE, FALSE>>, <<77, FALSE, FALSE>>, <<77, TRUE, FALSE>>, <<0, TRUE, TRUE>>, <<0, TRUE, FALSE>> >> IN
+                 Script("flaghist-" \o ToString(lin), << NewReader("h", r, TRUE) >>
+                          \o Flatten([j \in 1..Len(st) |-> << ReadCall("h", r, st[j][1], TRUE, st[j][2], st[j][3]), ReadReact(r, j, st[j][1], TRUE, st[j][2], st[j][3]) >>]), "flags")
+                 : lin \in {0, 2, 8} }
 \* factors: M and B boundary-complete over 10 bits, all 16 x 16 exponent pairs, a few raw bytes each
 Bound10 == {-512, -511, -257, -256, -255, -129, -128, -127, -2, -1, 0, 1, 2, 127, 128, 129, 255, 256, 257, 510, 511}
 \* (one reader per factor value: new reader, then reads)
@@ -105,7 +112,7 @@ LunScripts ==
            << NewReader("l", r, TRUE), call(1), ReadReact(r, 1, 77, TRUE, TRUE, FALSE),
               call(2), BusyReact(r, 2, 192), ReadReact(r, 3, 77, TRUE, TRUE, FALSE),
               call(3), BusyReact(r, 4, 195), BusyReact(r, 5, 192), ReadReact(r, 6, 77, TRUE, TRUE, FALSE) >>, "lun") : lun \in 0..3 }
-Scripts == CASE Family = "sweep" -> Sweeps [] Family = "misc" -> RefusalScripts \cup FlagScripts \cup Factors \cup ZeroScripts \cup SharedScripts \cup ReservedScripts [] Family = "lun" -> LunScripts
+Scripts == CASE Family = "sweep" -> Sweeps [] Family = "misc" -> RefusalScripts \cup FlagScripts \cup FlagHistory \cup Factors \cup ZeroScripts \cup SharedScripts \cup ReservedScripts [] Family = "lun" -> LunScripts
 Header == [header |-> TRUE, family |-> "sensor", defs |-> SessionDefs(S), stable |-> <<"SIK", "kB", "kR">>,
            session |-> SessionRecipes(S), prefixes |-> [hs |-> HandshakeSteps(S)]]
 ASSUME PrintT(<<"HEADER", ToJson(Header)>>)
